@@ -584,6 +584,17 @@ def foreignOuts (g : Graph) (outs : List NewOut) : List Name :=
 def routeNames (isFunc : Bool) (g : Graph) (outs : List NewOut) : List Name :=
   g.inputs ++ g.outputs ++ (if isFunc then [] else foreignOuts g outs)
 
+/-- The test of fix f8abc79: the replacement has no nodes of its own, exactly one routing `Identity`
+was created, the match is exactly one node, a default-domain `Identity`, and its input is the routed value. -/
+def noProgress (g : Graph) (m : Match) (newNodes idNodes : List Node) : Bool :=
+  newNodes.isEmpty && idNodes.length == 1 &&
+  match m.nodes, idNodes with
+  | [nid], [idn] =>
+    (match nodeById g nid with
+     | some n => n.op == "Identity" && n.domain == "" && n.inputs.head? == idn.inputs.head?
+     | none => false)
+  | _, _ => false
+
 /-! ## `try_rewrite` + the body of the rule loop -/
 
 inductive Err where
@@ -649,6 +660,12 @@ def tryRule (kind : Kind) (r : Rule) (st : PassSt) (lo : List (String × Nat)) (
               -- fixes e8a0767, 1dc987d, aef7e04: a returned graph input, graph output or value of another graph
               -- goes through an Identity node
               let (idNodes, newOuts) := addIdentities (routeNames (kind == .func) g δ.newOutputs) st.nextId δ.newOutputs
+              -- fix f8abc79: replacing `Identity(v)` by the routing `Identity(v)` is no progress (and the new node would be
+              -- matched again for ever): the rule is skipped, the next rule is tried, nothing is counted
+              if noProgress g m newNodes idNodes then
+                if !δ.newInits.isEmpty then .error (.unmodelled "no-progress skip after initializer registration")
+                else .ok (.skipped { st with ghost := st.ghost ++ idNodes.flatMap (·.inputNames) } lo1)   -- the discarded Identity keeps its use
+              else
               let st := { st with nextId := st.nextId + idNodes.length }
               let newNodes := newNodes ++ idNodes
               let δ := { δ with newOutputs := newOuts }
